@@ -1,6 +1,7 @@
 use vkit::engine::{drive_main, Args};
 
 pub mod c01;
+pub mod c02;
 pub mod c04;
 pub mod c08;
 pub mod c09;
@@ -21,6 +22,8 @@ pub const STACK_SIZE: usize = 8 * 1024 * 1024;
 pub fn dispatch(id: &str, args: &Args) -> i32 {
     match id {
         "C01" => drive_main(&c01::C01, args),
+        "C02" => drive_main(&c02::C02, args),
+        "C17" => drive_main(&c02::C17, args),
         "C04" => drive_main(&c04::C04, args),
         "C08" => drive_main(&c08::C08, args),
         "C09" => drive_main(&c09::C09, args),
